@@ -113,6 +113,9 @@ func (w *Workspace) Prepare(c *Case) {
 		}
 	}
 	c.Spec = refmodel.Build(c.Name, c.File, c.Cfg)
+	if err := refmodel.Check(c.Spec); err != nil {
+		c.GenErr = "HARNESS: corpus generator produced an ambiguous case: " + err.Error()
+	}
 	c.Spec.Tags = c.Tags
 	yaml, params := descgen.Emit(c.Cfg, c.Delivery)
 	c.YAML = yaml
@@ -134,6 +137,9 @@ var PluginTimeout = 180 * time.Second
 
 // Generate runs protoc-gen-gogo and the plugin under test on the case.
 func (w *Workspace) Generate(c *Case) {
+	if c.GenErr != "" {
+		return
+	}
 	plug, err := w.BuildPlugin(c.PluginVariant)
 	if err != nil {
 		c.GenErr = err.Error()
